@@ -646,10 +646,64 @@ def sine_case(seed, k):
     return fails, summ
 
 
+CLIMB_T = 300.0
+
+
+def climb_case(seed, k, dt=0.1, total=CLIMB_T):
+    """round trip on a sustained fast climb / descent (|VD| 80..150 m/s for 5 minutes, 50..250 m/s horizontal, coarse
+    sampling): strapdown.Integrator fed with the synthesised readings from the first returned row must reproduce the
+    returned trajectory.  The scheme is first order in dt in the vertical channel, and the vertical channel is
+    sensitive to WHERE in the interval gravity is taken: a half-sample altitude offset |VD| dt / 2 in the gravity
+    model gives a bias (2 g / R) |VD| dt / 2.  The tolerance is a fifth of the effect of a full-sample offset:
+        VD:  0.2 (2g/R) |VD| dt T      altitude:  0.2 (2g/R) |VD| dt T^2 / 2
+    (clean tree over 800 cases: at most 0.09 of it; gravity taken one full sample off, e.g. on the wrong side of the
+    current altitude: 5x above it),
+    horizontal velocity 0.25 dt m/s, horizontal position 50 dt m: all linear in dt like the scheme."""
+    from pyins import sim, strapdown
+    rng = _case_rng(seed, 600000 + k)
+    origin = ORIGINS[k % 4]
+    tau_t = np.arange(int(round(total / dt)) + 1) * dt
+    n = len(tau_t)
+    vz = (-1 if k % 2 == 0 else 1) * rng.uniform(80, 150)          # even k climb (VD < 0), odd k descend
+    az = rng.uniform(0, 2 * math.pi)
+    sp = rng.uniform(50, 250)
+    tau = rng.uniform(10, 30)
+    vel = np.empty((n, 3))
+    vel[:, 0] = sp * math.cos(az) + 5 * np.sin(0.02 * tau_t + rng.uniform(0, 6))
+    vel[:, 1] = sp * math.sin(az) + 5 * np.cos(0.02 * tau_t + rng.uniform(0, 6))
+    vel[:, 2] = vz * (1 - np.exp(-tau_t / tau))
+    rph = np.empty((n, 3))
+    rph[:, 0] = rng.uniform(0, 5) * np.sin(0.05 * tau_t)
+    rph[:, 1] = rng.uniform(-20, 20) + 2 * np.sin(0.03 * tau_t)
+    rph[:, 2] = math.degrees(az) + rng.uniform(-0.5, 0.5) * tau_t
+    alt0 = 200.0 if vz < 0 else 200.0 + abs(vz) * total
+    lla0 = [rng.choice([-1, 1]) * rng.uniform(0, 70), rng.uniform(-179, 179), alt0]
+    k_grav = 2 * G_E / A_E                                          # d gravity / d altitude, 3.1e-6 1/s^2
+    tol = dict(VD=0.2 * k_grav * abs(vz) * dt * total, alt=0.1 * k_grav * abs(vz) * dt * total ** 2,
+               Vh=0.25 * dt, pos=50.0 * dt)
+    fails = []
+    summ = dict(vertical_speed=vz, horizontal_speed=sp, dt=dt, t_first=origin, lla0=lla0, tol=tol)
+    for st in ('rate', 'increment'):
+        trj, imu = sim.generate_imu(origin + tau_t, lla0, rph, vel, st)
+        inc = strapdown.compute_increments_from_imu(imu, st)
+        out = strapdown.Integrator(trj.iloc[0]).integrate(inc)
+        d = out[['alt', 'VD', 'VN', 'VE']].values - trj[['alt', 'VD', 'VN', 'VE']].values
+        dl = (out[['lat', 'lon']].values - trj[['lat', 'lon']].values) * D2R * 6.4e6
+        dl[:, 1] *= np.cos(trj['lat'].values * D2R)
+        e = dict(alt=float(np.abs(d[:, 0]).max()), VD=float(np.abs(d[:, 1]).max()),
+                 Vh=float(np.abs(d[:, 2:]).max()), pos=float(np.abs(dl).max()))
+        summ[st] = e
+        for ch, unit in (('alt', 'm'), ('VD', 'm/s'), ('Vh', 'm/s'), ('pos', 'm')):
+            if not (e[ch] <= tol[ch]):
+                fails.append(f"round trip {st}, {total:.0f} s at vertical speed {-vz:+.0f} m/s up, dt={dt}: strapdown from the "
+                             f"first returned row is off the returned trajectory by {e[ch]:.3e} {unit} in {ch} (tolerance {tol[ch]:.2e})")
+    return fails, summ
+
+
 FAMILIES = ('gc', 'helix', 'tumble')
 
 
-def numeric(r, n_traj, n_rest, dts, seed=None, closed=True, legs=((0.1, 1),), n_sine=6):
+def numeric(r, n_traj, n_rest, dts, seed=None, closed=True, legs=((0.1, 1),), n_sine=6, climbs=((0.1, 1),)):
     seed = r.seed if seed is None else seed
     out = []
     dist = {}
@@ -688,6 +742,16 @@ def numeric(r, n_traj, n_rest, dts, seed=None, closed=True, legs=((0.1, 1),), n_
             out.append((f, dict(kind='sine', seed=seed, k=k, what=f)))
     dist['sine_velocity_motion'] = n_sine
     dist['time_origins'] = list(ORIGINS)
+    ncl = 0
+    for dt, cnt in climbs:
+        for j in range(cnt):
+            kk = ncl
+            ncl += 1
+            fails, summ = climb_case(seed, kk, dt)
+            r.case(('climb', kk, dt), sample=dict(kind='climb', k=kk, **summ))
+            for f in fails[:2]:
+                out.append((f, dict(kind='climb', seed=seed, k=kk, dt=dt, what=f)))
+    dist['climb_round_trip'] = ncl
     dist['non_uniform_grids'] = dict(trajectories=n_traj // 2, rest=n_rest // 2)
     r.coverage['distribution'] = dict(trajectories=dist, forms=list(FORMS), sensor_types=['rate', 'increment'],
                                       intervals=list(dts), total_time_s=TOTAL)
@@ -723,7 +787,7 @@ def check(r):
     if r.tier == 'quick':
         fails = numeric(r, n_traj=6, n_rest=20, dts=(0.1, 0.05), legs=((0.1, 1),))
     else:
-        fails = numeric(r, n_traj=120, n_rest=1000, dts=(0.1, 0.05, 0.025, 0.0125), legs=((0.1, 6), (0.05, 3)), n_sine=60)
+        fails = numeric(r, n_traj=120, n_rest=1000, dts=(0.1, 0.05, 0.025, 0.0125), legs=((0.1, 6), (0.05, 3)), n_sine=60, climbs=((0.1, 12), (0.05, 6)))
         for k in range(1000):
             f, rep = poly_case(r.seed, k)
             r.case(('poly', k))
@@ -767,6 +831,13 @@ def falsify(r):
             if len(found) >= 3:
                 break
     if len(found) < 3:
+        for k in range(4):
+            f, _ = climb_case(r.seed + 1, k, 0.1)
+            for x in f[:1]:
+                found.append((x, dict(kind='climb', seed=r.seed + 1, k=k, dt=0.1, what=x)))
+            if len(found) >= 3:
+                break
+    if len(found) < 3:
         for k in range(12):
             f, _ = sine_case(r.seed + 1, k)
             for x in f[:1]:
@@ -797,6 +868,9 @@ def replay(obj):
     elif kind == 'poly':
         fails, summ = poly_case(rep['seed'], rep['k'])
         print("increment kernel input:", summ)
+    elif kind == 'climb':
+        fails, summ = climb_case(rep['seed'], rep['k'], rep.get('dt', 0.1))
+        print("climb / descent round trip:", summ)
     elif kind == 'sine':
         fails, summ = sine_case(rep['seed'], rep['k'])
         print("generate_sine_velocity_motion:", summ)
